@@ -56,8 +56,13 @@ def _jobs_store_family(oracles, family_untimed, family_timed, tier, stores_untim
     for s in belts:
         if q:
             jobs.append(m1(s, family_timed, 2, 1, oracles, 10, R2=1, USE=False))
+            # the same history with a user polling can_put()/can_get() between any two calls
+            jobs.append(m1(s, family_timed, 2, 1, oracles, 8, R2=1, USE=False, POLL=True, name=f"M1/{s}/{family_timed}/N2K1-polled"))
+            jobs.append(m1(s, family_timed, 2, 1, oracles, 10, R2=1, USE=True, POLL="one", name=f"M1/{s}/{family_timed}/N2K1-polled-once"))
         else:
             jobs.append(m1(s, family_timed, 2, 2, oracles, 60, R2=1, USE=True))
+            jobs.append(m1(s, family_timed, 2, 2, oracles, 40, R2=1, USE=True, POLL=True, name=f"M1/{s}/{family_timed}/N2K2-polled"))
+            jobs.append(m1(s, family_timed, 2, 1, oracles, 60, R2=1, USE=True, POLL="one", name=f"M1/{s}/{family_timed}/N2K1-polled-once"))
     if extra:
         jobs.extend(extra(tier))
     return jobs
@@ -282,6 +287,14 @@ def fan_cfgs(tier):
     C["nb-machine-fa"] = dict(n_src=1, n_out=2, n_items=n3, w=1, out_cap=1, blocking=False)
     C["nb-machine-rr"] = dict(n_src=1, n_out=2, n_items=n3, w=1, out_cap=1, blocking=False, out_sel="ROUND_ROBIN")
     C["nb-machine-w2"] = dict(n_src=2, n_out=1, n_items=2, w=2, out_cap=1, blocking=False, same_iat=True)
+    C["nb-machine-w2-fanout-tie"] = dict(n_src=2, n_out=2, n_items=2, w=2, out_cap=1, blocking=False, same_iat=True)
+    C["nb-machine-w2-fleet-buffer-tie"] = dict(n_src=2, n_out=2, n_items=2, w=2, out_kind=("fleet", "buffer"), out_cap=2, blocking=False, same_iat=True,
+                                               sym=("iat",), conv_kw=dict(fdelay=1, transit=0.5), until=14, second_machine=True)
+    C["nb-machine-fleet-out"] = dict(n_src=1, n_out=1, n_items=4, w=1, out_kind="fleet", out_cap=2, blocking=False, sym=("iat", "pd"), out_delay=0,
+                                     conv_kw=dict(fdelay=1, transit=0.5), until=16)
+    C["nb-machine-cconv-out-w2-tie"] = dict(n_src=2, n_out=1, n_items=2, w=2, out_kind="cconv", out_cap=3, blocking=False, same_iat=True, out_delay=0)
+    C["nb-machine-cconv-out-slow"] = dict(n_src=1, n_out=1, n_items=4, w=1, out_kind="cconv", out_cap=2, blocking=False, sym=("iat", "pd"), second_machine=True,
+                                          out_delay=0)
     C["nb-source-idx"] = dict(n_src=1, n_out=1, n_items=4, w=1, in_cap=1, src_blocking=False)
     C["nb-source-fa"] = dict(n_src=1, n_out=1, n_items=4, w=1, in_cap=1, src_blocking=False, src_out_sel="FIRST_AVAILABLE")
     C["rr-in"] = dict(n_src=2, n_out=1, n_items=2, w=1, in_sel="ROUND_ROBIN")
@@ -360,7 +373,9 @@ PROPS["C08"] = {
 PROPS["C09"] = {
     "explanation": M2_EXPL + "blocking nodes: discard counters stay 0; non-blocking nodes: every drop happens at a moment when no permitted out-edge has room (ledger view), raises the "
                    "counter by exactly one, no finished item is held across an instant, and a non-blocking source keeps its cadence (k-th item at g1+..+gk).",
-    "jobs": lambda tier: fan_jobs("C09", tier, names=["line-w1", "fanout-fa", "nb-machine-fa", "nb-machine-rr", "nb-machine-w2", "nb-source-idx", "nb-source-fa", "rr-out", "idx-out", "fanout-w2-tie"]),
+    "jobs": lambda tier: fan_jobs("C09", tier, names=["line-w1", "fanout-fa", "nb-machine-fa", "nb-machine-rr", "nb-machine-w2", "nb-source-idx", "nb-source-fa", "rr-out", "idx-out", "fanout-w2-tie",
+                                                     "nb-machine-w2-fanout-tie", "nb-machine-w2-fleet-buffer-tie", "nb-machine-fleet-out", "nb-machine-cconv-out-w2-tie",
+                                                     "nb-machine-cconv-out-slow", "line-cconv-out", "line-fleet-out"]),
     "required_witnesses": ["C09:discard-seen", "C09:nonblocking-source-checked"],
     "nontrivial_witnesses": ["complete"],
     "twin": lambda tier: ("vfy.m2s", "fan", dict(props=("C09",), n_src=1, n_out=1, n_items=2, blocking=False, twin=True)),
@@ -383,7 +398,8 @@ PROPS["C10"] = {
 PROPS["C15"] = {
     "explanation": M2_EXPL + "the edge on which every item is pulled/pushed is compared with the policy's answers (ROUND_ROBIN k mod n, constant index, user callable / generator whose answers "
                    "the solver chooses), FIRST_AVAILABLE must not cancel a granted request on a lower-index edge in the round in which it commits, and the recorded selection history must equal the routing.",
-    "jobs": lambda tier: fan_jobs("C15", tier, names=["fanin-fa", "fanin-fa-indelay", "fanin-fa-w2-tie", "fanout-fa", "fanout-w2-tie", "nb-machine-fa", "nb-machine-rr", "rr-in", "rr-out", "rr-both", "idx-out", "callable-in", "generator-out", "fanout3-w3", "fanout-sink-fanin", "fanout-sink-fanin-tie", "line-srcfa", "fanin-fa-srcfa"]) + srcfan_jobs("C15", tier) + pk_jobs_late("C15", tier, ["r11-rr2", "r13-nonblocking-split", "r12-fa2"]) + [
+    "jobs": lambda tier: fan_jobs("C15", tier, names=["fanin-fa", "fanin-fa-indelay", "fanin-fa-w2-tie", "fanout-fa", "fanout-w2-tie", "nb-machine-fa", "nb-machine-rr", "rr-in", "rr-out", "rr-both", "idx-out", "callable-in", "generator-out", "fanout3-w3", "fanout-sink-fanin", "fanout-sink-fanin-tie", "line-srcfa", "fanin-fa-srcfa", "fanin3-fa",
+                                                     "nb-machine-w2-fanout-tie", "nb-machine-w2-fleet-buffer-tie", "nb-machine-fleet-out", "nb-machine-cconv-out-w2-tie"]) + srcfan_jobs("C15", tier) + pk_jobs_late("C15", tier, ["r11-rr2", "r13-nonblocking-split", "r12-fa2"]) + [
         {"name": "M0/selectors", "spec": ("vfy.m0", "selector_scenario", dict(nmax=4 if tier == "quick" else 6)), "budget_s": 20 if tier == "quick" else 60, "bounds": "RoundRobin_edge_selector and _get_*_edge_index of all node classes with out-of-range answers"}],
     "required_witnesses": ["C15:routing-checked", "C15:history-checked", "C15:range-checked"],
     "nontrivial_witnesses": ["complete"],
@@ -434,6 +450,8 @@ def _jobs_c14(tier):
     add("cap3-3loads-gap-delay", 20 if q else 60, cap=3, n_loads=3, sym=("gap", "delay"))
     add("cap2-3loads-slow", 20 if q else 120, cap=2, n_loads=3, sym=("gap", "transit"), consumer="slow")
     add("cap2-zero-delay", 15 if q else 120, cap=2, n_loads=2, zero=True)
+    add("cap2-3loads-juggling-consumer", 15 if q else 90, cap=2, n_loads=3, sym=("gap",), consumer="juggle")
+    add("cap2-3loads-equal-items", 15 if q else 90, cap=2, n_loads=3, sym=("gap", "transit"), equal_items=True)
     if not q:
         add("cap2-3loads-all", 150, cap=2, n_loads=3)
         add("cap3-4loads", 120, cap=3, n_loads=4, sym=("gap", "delay"))
@@ -464,6 +482,9 @@ def conveyor_cfgs(tier):
             C[f"{kind}-acc{acc}-eager"] = dict(kind=kind, acc=acc, cap=3, n_items=n, consumer="eager")
             C[f"{kind}-acc{acc}-slow"] = dict(kind=kind, acc=acc, cap=3, n_items=3, consumer="slow")
             C[f"{kind}-acc{acc}-late"] = dict(kind=kind, acc=acc, cap=3, n_items=3, consumer="late")
+    for kind in ("cconv", "sconv"):
+        C[f"{kind}-acc1-juggling-consumer"] = dict(kind=kind, acc=1, cap=3, n_items=3, consumer="juggle")
+    C["cconv-acc1-late-bystander-belt"] = dict(kind="cconv", acc=1, cap=4, n_items=3, consumer="late", bystander=True, svc_hi=12)
     C["sconv-acc1-cap2-hold"] = dict(kind="sconv", acc=1, cap=2, n_items=3, consumer="hold")
     C["cconv-acc1-cap2-hold"] = dict(kind="cconv", acc=1, cap=2, n_items=3, consumer="hold")
     C["sconv-acc1-2producers"] = dict(kind="sconv", acc=1, cap=3, n_items=3 if q else 4, consumer="late", n_prod=2)
